@@ -290,6 +290,91 @@ type fileCase struct {
 // readers used for the next buildCase calls (nil = bytes.Reader only)
 var extraReaders []readerSpec
 
+// knownClass assigns the known-finding class of C01 from the description of the input alone:
+// "plain-node-group": some PrimitiveGroup carries field 1 (plain, non-dense Node messages);
+// "packed-column-split": the layout writes packed columns as two chunks and some packed column of
+// the file has at least two entries (so that some column does occur more than once).
+func knownClass(d *pbfgen.FileDesc) string {
+	if pbfgen.HasPlainNodes(d) {
+		return "plain-node-group"
+	}
+	for _, b := range d.Blocks {
+		if b.Layout.SplitPacked && hasLongColumn(b) {
+			return "packed-column-split"
+		}
+	}
+	return ""
+}
+
+func hasLongColumn(b *pbfgen.Block) bool {
+	for _, g := range b.Groups {
+		for _, it := range g.Items {
+			switch {
+			case it.Dense != nil:
+				if len(it.Dense.Nodes) >= 2 || (len(it.Dense.Nodes) == 1 && it.Dense.HasKeysVals) {
+					return true
+				}
+			case it.Way != nil:
+				if len(it.Way.Refs) >= 2 || len(it.Way.Tags) >= 2 {
+					return true
+				}
+			case it.Relation != nil:
+				if len(it.Relation.Members) >= 2 || len(it.Relation.Tags) >= 2 {
+					return true
+				}
+			case it.Node != nil:
+				if len(it.Node.Tags) >= 2 {
+					return true
+				}
+			}
+		}
+	}
+	return false
+}
+
+// knownCorpus: inputs of the two known-finding classes of C01 (valid OSM PBF that the decoder does
+// not decode to its elements).  The cases go through the ordinary judgements; judgement 2 fails and
+// the check prints KNOWN-FINDING for the class instead of VIOLATION.
+func knownCorpus(rng *rand.Rand) []*pbfgen.FileDesc {
+	var out []*pbfgen.FileDesc
+	// plain nodes: the directed file (dense block, then a block with a plain-node group and a way),
+	// a file with nothing but one plain node, and a random file with a plain node appended to its last group
+	for _, dc := range pbfgen.DirectedCorpus() {
+		if dc.Name == "plain-nodes" {
+			out = append(out, dc.Desc)
+		}
+	}
+	b := &pbfgen.Block{Strings: []string{""}}
+	b.Groups = []*pbfgen.Group{{Items: []pbfgen.Item{{Node: &pbfgen.PlainNode{ID: 1, Lat: 5, Lon: -5, Info: pbfgen.Info{Visible: true}}}}}}
+	out = append(out, &pbfgen.FileDesc{Header: &pbfgen.Header{}, Blocks: []*pbfgen.Block{b}})
+	r := pbfgen.RandomFile(rng, pbfgen.Opts{MinBlocks: 2, MaxBlocks: 3, MinElements: 1})
+	lb := r.Blocks[len(r.Blocks)-1]
+	lg := lb.Groups[len(lb.Groups)-1]
+	lg.Items = append(lg.Items, pbfgen.Item{Node: &pbfgen.PlainNode{ID: 77, Lat: 1, Lon: 2, HasInfo: true, Fields: pbfgen.AllInfo,
+		Info: pbfgen.Info{Version: 1, Timestamp: 1, Changeset: 1, UID: 1, UserSid: 0, Visible: true}, Tags: []pbfgen.Tag{{K: 0, V: 0}}}})
+	out = append(out, r)
+	// split packed columns: the way/relation corpus file and random files, every packed column with
+	// at least two entries written as two chunks
+	split := func(d *pbfgen.FileDesc) *pbfgen.FileDesc {
+		nd := *d
+		nd.Blocks = nil
+		for _, b := range d.Blocks {
+			nb := *b
+			nb.Layout.SplitPacked = true
+			nd.Blocks = append(nd.Blocks, &nb)
+		}
+		return &nd
+	}
+	wb := &pbfgen.Block{Strings: []string{""}} // the witness of C01_split_packed_refuted: way 7, refs [1, 2] as chunks [2], [2]
+	wb.Groups = []*pbfgen.Group{{Items: []pbfgen.Item{{Way: &pbfgen.Way{ID: 7, Refs: []int64{1, 2}, Info: pbfgen.Info{Visible: true}}}}}}
+	out = append(out, split(&pbfgen.FileDesc{Header: &pbfgen.Header{}, Blocks: []*pbfgen.Block{wb}}))
+	out = append(out, split(corpus()[2]), split(corpus()[0]))
+	for i := 0; i < 4; i++ {
+		out = append(out, split(pbfgen.RandomFile(rng, pbfgen.Opts{MinBlocks: 1, MaxBlocks: 3, MinElements: 2, MaxRefs: 6})))
+	}
+	return out
+}
+
 // configurations of the Go-judged filtered runs of the next buildCase calls (nil = none)
 var filterFor []filterCfg
 
@@ -344,7 +429,9 @@ func buildCase(d *pbfgen.FileDesc, procsList []int, class string, mutate func(fc
 			oracleFail = "active consumer, procs=1: " + moved
 		}
 	}
-	if filterFor != nil && mutate == nil {
+	// known-finding classes, assigned from the INPUT alone (known_findings.d/C01.json)
+	known := knownClass(d)
+	if filterFor != nil && mutate == nil && known == "" {
 		msg, log := filteredRuns(d, data, filterFor, []int{1, procsList[len(procsList)-1]}, false)
 		fc.Filtered = log
 		if oracleFail == "" {
@@ -361,7 +448,7 @@ func buildCase(d *pbfgen.FileDesc, procsList []int, class string, mutate func(fc
 		fc.HErr = herr.Error()
 	}
 
-	c := &wire.Case{Class: class, Desc: fc, OracleFail: oracleFail}
+	c := &wire.Case{Class: class, Desc: fc, OracleFail: oracleFail, Known: known}
 	pool := pbfwire.NewPool()
 	for i := range fc.Obs {
 		for j := range fc.Obs[i].Objs {
@@ -748,6 +835,21 @@ func main() {
 		}
 		w.Add(c)
 		w.Count("directed")
+	}
+	// inputs of the known-finding classes (valid with respect to the format; see knownClass)
+	for i, d := range knownCorpus(rand.New(rand.NewSource(a.Seed + 3))) {
+		if err := pbfgen.ValidateFormat(d); err != nil {
+			fail(fmt.Errorf("known corpus %d invalid: %v", i, err))
+		}
+		c, err := buildCase(d, []int{1, 2}, "known-class-input", nil)
+		if err != nil {
+			fail(err)
+		}
+		if c.Known == "" {
+			fail(fmt.Errorf("known corpus %d: no class assigned", i))
+		}
+		w.Add(c)
+		w.Count("known:" + c.Known)
 	}
 	// vacuity guard of the Go-side oracle for filtered runs: a corrupted observation must be reported
 	{
